@@ -1,11 +1,13 @@
 """C04 — continuation IK ordered by closeness to the previous joints."""
 from props import _ikcommon as K
 ID = "C04"
-COQ_TARGETS = ["Exec/Kin.vo", "Properties/C04.vo"]
-THEOREMS = ["C04_normalize_near_nearest", "C04_continuing_sorted", "C04_continuing_5dof_sorted", "C04_continuing_superset"]
+COQ_TARGETS = ["Exec/Kin.vo", "Properties/C04.vo", "Proofs/FirstK.vo"]
+THEOREMS = ["C04_normalize_near_nearest", "C04_continuing_sorted", "C04_continuing_5dof_sorted", "C04_continuing_superset", "C04_previous_first"]
 LEVEL_TEXT = ("Coq theorems: normalize_near returns the nearest 2pi-representative for every previous in [-2pi,2pi] and kernel angle in "
               "[-pi,pi]; the continuation lists are StronglySorted by the documented cost for every weight and the sentinel; every plain "
-              "inverse answer appears modulo whole turns")
+              "inverse answer appears modulo whole turns; PREVIOUS FIRST: on the concrete kernel (finishing glue over the generated "
+              "table), previous joints within +-2pi and within the limits that realise a non-singular pose are the head of "
+              "inverse_continuing when sorting is by distance to previous (C04_previous_first, from the completeness theorem of C02)")
 LEVEL_NOTE = K.NOTE
 TECHNIQUE = K.TECH
 RULE = ("KIN records for entries 1 and 3 plus normalize_near / calculate_distance function records; oracle: nearest representative, "
@@ -13,5 +15,6 @@ RULE = ("KIN records for entries 1 and 3 plus normalize_near / calculate_distanc
         "at least one solution returned; distinct = distinct (case, entry) / argument tuples")
 EXPLANATION = "see LEVEL_NOTE"
 ASSUMPTIONS = K.ASSUME
-PARTIAL = ["previous-first and trajectory tracking need kernel completeness (C02): decided by the oracle search, not yet by a theorem"]
+PARTIAL = ["previous-first is proved over R for sorting by distance to previous (weight 0) on non-singular configurations; that the f64 solver keeps the "
+           "branch step by step along a sampled trajectory is decided by the oracle search"]
 correspondence, search = K.make("C04", lambda r: (r["fn"] == "entry" and r["entry"] in (1, 3)) or r["fn"] in ("normalize_near", "calculate_distance", "sort_by_closeness"))
